@@ -437,6 +437,7 @@ func main() {
 		decline("token_enum", "no constants of type parser.token")
 	}
 	policyFuncs(l, &sb)
+	columnTables(l, &sb)
 	if err := os.WriteFile(os.Args[2], []byte(sb.String()), 0o644); err != nil {
 		fmt.Fprintln(os.Stderr, err)
 		os.Exit(2)
